@@ -278,6 +278,19 @@ NAME_BASES = ["chip", "top", "a", "design_1", "c0"]
 NAME_PARTS = ["v2", "placed", "b", "c", "2024-10-02", "final", "0", "aux", "nodes", "pl", "scl", "tar", "v1", "1"]
 NAME_DIRS = ["plain", ".", "run.1", "a.b/c.d", "v1.0/out", "x.y.z", "chip.placed"]
 O1_MSG = "ERR RuntimeError: Could not find file"
+# exception classes with which the real pycoloquinte/coloquinte.py read_ispd REFUSES a file (its own `raise RuntimeError`, its
+# `assert`s, int()/float()/tuple-unpacking of a malformed token -> ValueError, a too short line -> IndexError; TypeError = the
+# compiled module refusing an argument, e.g. None for a CellOrientation; ZeroDivisionError = `cell_heights[i] % row_height` of
+# read_ispd with rows of height 0, the model's `Z.eqb rh 0` refusal)
+EXPECTED_READER_ERRORS = ("RuntimeError", "AssertionError", "ValueError", "IndexError", "TypeError", "ZeroDivisionError")
+
+
+def reader_error_class(py):
+    """'ERR <Class>: msg' -> Class; '<died>' for a reader process that died / printed nothing usable"""
+    t = py.split()
+    if len(t) >= 2 and t[0] == "ERR" and t[1].endswith(":") and t[1][:-1].isidentifier():
+        return t[1][:-1]
+    return "<died>"
 
 NAME_READER = r'''
 import os, sys
@@ -503,7 +516,7 @@ def run(ctx):
         shutil.rmtree(workdir, ignore_errors=True)
     n_vm, vm_bad = vm_crosscheck(recs)
 
-    exp_mism, rd_mism, hp_mism, stmt_fail, dom_mism = [], [], [], {}, []
+    exp_mism, rd_mism, hp_mism, stmt_fail, dom_mism, standin_crash = [], [], [], {}, [], []
     nontriv = set()
     dist = {"cells_by_orientation": [0] * 10, "rows_by_orientation": [0] * 10, "fixed_cells": 0, "cells": 0, "unplaced_cells": 0,
             "nets": 0, "pins": 0, "nets_with_a_repeated_cell": 0, "pins_outside_the_outline": 0, "half_integer_offsets": 0,
@@ -568,6 +581,15 @@ def run(ctx):
         pyr = r["py"] if r["py"].startswith("R ") else "ERR"
         if r["py"].startswith("ERR"):
             dist["reader_refusals"] += 1
+        if not r["py"].startswith("R "):
+            # "the model says None" agrees only with a REFUSAL of the reader: an exception of a class coloquinte.py's read_ispd raises
+            # on a file it rejects.  Anything else (a dead reader process, an exception class that can only come from the stand-in
+            # module / the glue, an empty line) is NOT agreement with the model's None: it is a broken correspondence.
+            cls = reader_error_class(r["py"])
+            by = dist.setdefault("reader_refusals_by_exception_class", {})
+            by[cls] = by.get(cls, 0) + 1
+            if cls not in EXPECTED_READER_ERRORS:
+                standin_crash.append((lr, note + r["py"][:300], "model: " + r["m_read"][:120]))
         if pyr != r["m_read"] and ifiles == mfiles:
             rd_mism.append((lr, note + r["py"][:300], r["m_read"][:300]))
         if r["py"].startswith("R "):
@@ -614,6 +636,12 @@ def run(ctx):
                           "in-domain circuit" % (len(rd_mism), len(lines)),
                           {"broken": "correspondence of coq/Ispd.v (reader) with pycoloquinte/coloquinte.py",
                            "first_difference": {"case": rd_mism[0][0], "python": rd_mism[0][1], "model": rd_mism[0][2]}}, found_input=False)
+        if standin_crash:
+            ctx.violation("the Python reader run of %d of %d cases ended in something that is NOT a refusal by coloquinte.py (reader process died, or an exception "
+                          "class outside %s): a stand-in / glue failure must not count as agreement with the model's None; first: %s"
+                          % (len(standin_crash), len(recs), "/".join(EXPECTED_READER_ERRORS), standin_crash[0][1]),
+                          {"broken": "reader side of the C20 tie (tools/ispd_pyread.py + tools/pystub/coloquinte_pybind.py over pycoloquinte/coloquinte.py)",
+                           "first_difference": {"case": standin_crash[0][0], "python": standin_crash[0][1], "model": standin_crash[0][2]}}, found_input=False)
         if hp_mism:
             ctx.violation("Hpwl.hpwl and Circuit::hpwl differ on %d circuits" % len(hp_mism),
                           {"broken": "correspondence of coq/Hpwl.v with Circuit::hpwl", "first_difference": hp_mism[0]}, found_input=False)
@@ -648,7 +676,10 @@ def run(ctx):
                 "export_names": ninfo, "export_name_samples": [g[:160] for g in glines[:3]],
                 "exhaustive_grid_cases": len(grid),
                 "samples": samples, "input_distribution": dist, "bindings": binfo,
-                "model_vs_impl_differences": {"exporter_bytes": len(exp_mism), "reader": len(rd_mism), "hpwl": len(hp_mism), "domain": len(dom_mism),
+                "reader_runs_that_are_no_refusal_by_coloquinte_py": {"count": len(standin_crash), "first": [x[1] for x in standin_crash[:3]],
+                                                                     "expected_refusal_classes": list(EXPECTED_READER_ERRORS),
+                                                                     "rule": "a reader result that is neither a circuit nor 'ERR <one of these classes>' is reported as broken correspondence, never as agreement with the model's None"},
+                "model_vs_impl_differences": {"exporter_bytes": len(exp_mism), "reader": len(rd_mism) + len(standin_crash), "hpwl": len(hp_mism), "domain": len(dom_mism),
                                               "of_which_equal_to_the_model_of_the_unrepaired_exporter": unfixed_like,
                                               "extraction_vs_vm_compute": "%d of %d" % (len(vm_bad), n_vm)},
                 "impl_outputs_violating_statement": {k: len(v) for k, v in stmt_fail.items()},
@@ -657,6 +688,8 @@ def run(ctx):
         "domain: eight real orientations for cells and rows, pins on existing cells with |offset - size/2| < 10^5, no empty net (Circuit::addNet drops "
         "them), at least one row and one row height, row height 0 only when every cell height is positive (read_ispd refuses the rest, as modelled)",
         "cell_is_obstruction, cell_row_polarity and net weights are not part of the statement: the format does not carry them (the reader resets them)",
+        "file names are opaque tokens in the model (_read_aux's split() / os.path.join not modelled): the claim covers names without whitespace; names with a directory part are validated by the name stream (finding F27, fixed)",
+        "print/parse inverse of numbers is assumed by the token model and carried by the byte-for-byte tie; the binding theorem is a translator-derived table + rule (value / def_readwrite / def_readonly / def_property / def_property_readonly / def recognised, other pybind forms not seen; .def targets not checked)",
         "model tied to the code by exact comparison on the cases of this run"])
 
 
@@ -695,6 +728,8 @@ def replay(ctx, path):
                 print("   files differ from the model:", first_diff(rec["impl"].rsplit(" # ", 1)[0], rec["m_files"].rsplit(" # ", 1)[0])); bad = True
             if (rec["py"] if rec["py"].startswith("R ") else "ERR") != rec["m_read"]:
                 print("   reader differs from the model's reader:", rec["m_read"][:400]); bad = True
+            if not rec["py"].startswith("R ") and reader_error_class(rec["py"]) not in EXPECTED_READER_ERRORS:
+                print("   the reader run is no refusal by coloquinte.py (stand-in / glue failure):", reader_error_class(rec["py"])); bad = True
             if in_domain(orig):
                 if rec["py"].startswith("R "):
                     d = compare_roundtrip(orig, parse_circuit([int(x) for x in rec["py"].split()[1:]]))
@@ -723,6 +758,8 @@ def replay(ctx, path):
     print("m_read:", rec["m_read"])
     bad = rec["impl"].rsplit(" # ", 1)[0] != rec["m_files"].rsplit(" # ", 1)[0]
     bad = bad or (rec["py"] if rec["py"].startswith("R ") else "ERR") != rec["m_read"]
+    if not rec["py"].startswith("R ") and reader_error_class(rec["py"]) not in EXPECTED_READER_ERRORS:
+        print("the reader run is no refusal by coloquinte.py (stand-in / glue failure):", reader_error_class(rec["py"])); bad = True
     if in_domain(orig):
         if rec["py"].startswith("R "):
             d = compare_roundtrip(orig, parse_circuit([int(x) for x in rec["py"].split()[1:]]))
